@@ -34,3 +34,23 @@ NOT_CLAIMED = {
             "no Lean model short of a semantics of text/template and gofmt can state it; a theorem about less would be a diff "
             "under another name (DESIGN.md section 7)"),
 }
+
+PROPS["C15"] = {
+    "lean_modules": ["Stef.Props.C15"],
+    "harness": [{"bin": "h_grpc", "args": []}],
+    "rule": ("cases = generated chunk lists (empty, 1-byte, small, 4 KiB+ chunks) x random splittings of each chunk into "
+             "messages (empty messages included, optional incomplete trailing chunk) x random read sizes (0, 1, small, 64, "
+             "4096) driven through the real chunkAssembler via the verif hook and replayed on the Lean model; plus "
+             "grpcWriter.WriteChunk cases and one end-to-end run over loopback gRPC; non-trivial = at least one chunk split "
+             "over several messages and at least one non-empty chunk; distinct by generator draw"),
+    "trusted_base": COMMON_TB + [
+        "Stef/Chunk.lean is a hand transcription of chunkAssembler.Read/recvMsg and grpcWriter.WriteChunk, tied by h_grpc",
+        "go/grpc/verif_hooks.go (add-only constructors, build tag verif)",
+        "gRPC itself (message order and integrity) is assumed reliable FIFO; exercised once end-to-end",
+    ],
+    "assumptions": ["a message source that fails stays failed (closed gRPC stream)",
+                    "an empty chunk makes Read return (0,nil); bufio gives up after 100 such reads - consumer behaviour, not claimed"],
+    "level_text": ("Theorems over all message sequences and all read-size sequences (induction over the interleaved run): "
+                   "bytes_unchanged, delivered_is_prefix, chunk_aligned, writer_one_message_per_chunk, split_irrelevant. "
+                   "Model tied to the Go code by op-for-op differential runs through the verif hook."),
+}
